@@ -149,6 +149,8 @@ def to_perf(recs, shuffle_rng=None, layout=None, origin=ORIGIN):
     call chains vary per sample (the usual [USER, ip], empty, context markers only); origin = 0: no SAMPLE_TIME feature (times stay absolute)"""
     lay = list(layout or (True, True))
     P.set_layout(*lay[:4])
+    # a sixth element: the file has two events (cpu-clock and a dummy tracking event) and the task records belong to event 0 or 1
+    P.set_task_event(lay[5] if len(lay) > 5 else None)
     try:
         return _to_perf(recs, shuffle_rng, origin, lay[4] if len(lay) > 4 else "std")
     finally:
